@@ -216,7 +216,10 @@ class Oracle:
         k = cell.kind
         valid, pv = models_std.parse_int_terms(self.uni, cell.s, 'i64') if K_STRING in cell.kinds else (False, z3.BitVecVal(0, 64))
         rc = engine.float_to_int(FP(z3.fpRoundToIntegral(z3.RNA(), cell.f)), 'i64').v
-        conv = z3.Or(k == K_BOOL, k == K_INT, z3.And(k == K_UINT, z3.ULE(cell.u, 2 ** 63 - 1)), k == K_FLOAT,
+        # a float converts when its rounded value is an i64 (NaN, the infinities and anything beyond the range do not:
+        # the engine answers false there, as it does for a UInt above i64::MAX)
+        conv = z3.Or(k == K_BOOL, k == K_INT, z3.And(k == K_UINT, z3.ULE(cell.u, 2 ** 63 - 1)),
+                     z3.And(k == K_FLOAT, z3.fpGEQ(cell.f, I64_MIN_F), z3.fpLT(cell.f, I64_LIM_F)),
                      z3.And(k == K_STRING, z3bool(valid)))
         val = z3.If(k == K_BOOL, z3.If(cell.b, z3.BitVecVal(1, 64), z3.BitVecVal(0, 64)),
                     z3.If(k == K_INT, cell.i, z3.If(k == K_UINT, cell.u, z3.If(k == K_FLOAT, rc, pv))))
